@@ -168,6 +168,45 @@ func extractC18() *lean {
 	}
 	l.def("contentTypes", "List (List Nat)", "["+strings.Join(ctl, ", ")+"]", cts)
 	l.def("resolveChecksDocumentID", "Bool", fmt.Sprint(idCheck), idCheck)
+	// every `.Equals(id)` comparison in Resolve, and what Resolve returns on success
+	var eqChecks, rets []string
+	if resolve != nil {
+		ast.Inspect(resolve, func(n ast.Node) bool {
+			switch x := n.(type) {
+			case *ast.IfStmt:
+				if c := condString(x.Cond); strings.Contains(c, ".Equals(") {
+					eqChecks = append(eqChecks, c)
+				}
+			case *ast.ReturnStmt:
+				if len(x.Results) == 3 && exprString(x.Results[2]) == "nil" {
+					rets = append(rets, condString(x.Results[0]))
+				}
+			}
+			return true
+		})
+	}
+	l.def("resolveEqualsChecks", "List String", leanStrList(eqChecks), eqChecks)
+	l.def("resolveReturnsDocument", "List String", leanStrList(rets), rets)
+	// http/client/caching.go: the expressions that index the response cache
+	_, ca := parseFile("http/client/caching.go")
+	var idx, popKey []string
+	ast.Inspect(ca, func(n ast.Node) bool {
+		switch x := n.(type) {
+		case *ast.IndexExpr:
+			if exprString(x.X) == "h.entriesByURL" {
+				if id, ok := x.Index.(*ast.Ident); !ok || id.Name != "requestURL" {
+					idx = append(idx, condString(x.Index))
+				}
+			}
+		case *ast.AssignStmt:
+			if len(x.Lhs) == 1 && len(x.Rhs) == 1 && exprString(x.Lhs[0]) == "requestURL" {
+				popKey = append(popKey, condString(x.Rhs[0]))
+			}
+		}
+		return true
+	})
+	l.def("cacheIndexExprs", "List String", leanStrList(idx), idx)
+	l.def("cachePopKey", "List String", leanStrList(popKey), popKey)
 
 	// web.go NewResolver: redirect check installed on the client, and that function's refusing conditions
 	var webConds []string
